@@ -35,7 +35,7 @@ import (
 	"verif/mc"
 )
 
-const opsRule = " Operand-slice family: every history of 1..3 logging calls in a row that all pass the SAME caller-owned operand slice; a call = one of 16 entry points (T, W, E, I, Trace/Warn/Error/Info.Println, Tf, Wf, Ef, If, Trace/Warn/Error/Info.Printf) x one of 9 context kinds (nil, Cid() object, library context, a second library context, alias, child of a library context, alias onto a parent carrying another id, context.Context without id, child of one); x 8 ways of passing the operands (literal arguments; spread of a slice with cap == len; spread of make([]interface{}, n, n+k) for k = 1, 2, 8; spread of ops[:n] of a longer slice; spread of ops[1:1+n] of a longer slice; spread of ops[:n:n] of a longer slice) x 7 operand lists of 0..3 values (strings, ints, a float, an error, nil, an empty string, a string that looks like a prefix). Depth 1 and 2: the full product; depth 3: quick = 6 entry points x 6 context kinds x 3 operand lists, thorough = the full call alphabet x 3 operand lists. Oracle after every call: a visible-level call put exactly one write into the current writer, one complete line '<label><timestamp> [pid][cid] ' + fmt.Sprintln / fmt.Sprintf of a private copy of the operands made before the history (just [pid] for nil, the object's / the context's id otherwise; for an id-less context.Context: the label, the timestamp and the message); no panic; and the caller's backing array - the operands, the elements between len and cap, and the neighbours of a sub-slice - is element-for-element identical to the private copy (a library that writes there breaks the next line logged from that slice and races with every other goroutine reading it). A history is non-trivial when at least one visible-level line was compared. Scheduled part: for each of the 8 passing modes, 2 and 3 goroutines that create their own contexts (WithContext, AliasContext(nil), alias/child of their own, Cid() object, nil, id-less) and log ONE shared operand slice through Println- and Printf-style entry points of every level, under every interleaving; same per-call oracle, plus the shared array unchanged at the end. The free-running race pass runs 4 such goroutines per shared passing mode and compares the multiset of lines written with the multiset expected."
+const opsRule = " Operand-slice family: every history of 1..3 logging calls in a row that all pass the SAME caller-owned operand slice; a call = one of 16 entry points (T, W, E, I, Trace/Warn/Error/Info.Println, Tf, Wf, Ef, If, Trace/Warn/Error/Info.Printf) x one of 9 context kinds (nil, Cid() object, library context, a second library context, alias, child of a library context, alias onto a parent carrying another id, context.Context without id, child of one); x 8 ways of passing the operands (literal arguments; spread of a slice with cap == len; spread of make([]interface{}, n, n+k) for k = 1, 2, 8; spread of ops[:n] of a longer slice; spread of ops[1:1+n] of a longer slice; spread of ops[:n:n] of a longer slice) x 7 operand lists of 0..3 values (strings, ints, a float, an error, nil, an empty string, a string that looks like a prefix), at depth 1 also 19 long lists (every operand count 4..18 and 31..34). Depth 1 and 2: the full product; depth 3: quick = 6 entry points x 6 context kinds x 3 operand lists, thorough = the full call alphabet x 3 operand lists. Oracle after every call: a visible-level call put exactly one write into the current writer, one complete line '<label><timestamp> [pid][cid] ' + fmt.Sprintln / fmt.Sprintf of a private copy of the operands made before the history (just [pid] for nil, the object's / the context's id otherwise; for an id-less context.Context: the label, the timestamp and the message); no panic; and the caller's backing array - the operands, the elements between len and cap, and the neighbours of a sub-slice - is element-for-element identical to the private copy (a library that writes there breaks the next line logged from that slice and races with every other goroutine reading it). A history is non-trivial when at least one visible-level line was compared. Scheduled part: for each of the 8 passing modes, 2 and 3 goroutines that create their own contexts (WithContext, AliasContext(nil), alias/child of their own, Cid() object, nil, id-less) and log ONE shared operand slice through Println- and Printf-style entry points of every level, under every interleaving; same per-call oracle, plus the shared array unchanged at the end. The free-running race pass runs 4 such goroutines per shared passing mode and compares the multiset of lines written with the multiset expected."
 
 // ---------------------------------------------------------------- entry points
 
@@ -95,6 +95,25 @@ var opLists = [][]interface{}{
 	{7, 8},
 	{"", "x"},
 	{opsErr, 3.5, nil},
+}
+
+// opShortLists is the number of short lists above (all depths); the lists appended by init are long ones - every operand
+// count 4..18 and 31..34 - used at depth 1 (one call, every entry point, context kind and passing mode): a library that
+// assembles the line's operands in a fixed-size scratch loses or corrupts operands at one particular count
+const opShortLists = 7
+
+func init() {
+	for _, n := range []int{4, 5, 6, 7, 8, 9, 10, 11, 12, 13, 14, 15, 16, 17, 18, 31, 32, 33, 34} {
+		var l []interface{}
+		for i := 0; i < n; i++ {
+			if i%3 == 2 {
+				l = append(l, i)
+			} else {
+				l = append(l, fmt.Sprintf("o%d", i))
+			}
+		}
+		opLists = append(opLists, l)
+	}
 }
 
 // opFormat is the format string a Printf-style call uses for n operands (one verb per operand).
@@ -529,15 +548,18 @@ func (e *opsEnv) plans(c *hl.Ctx) []opsPlan {
 			small = append(small, opFnByName(fnm)*nk+k)
 		}
 	}
-	var allLists []int
+	var allLists, shortLists []int
 	for i := range opLists {
 		allLists = append(allLists, i)
+		if i < opShortLists {
+			shortLists = append(shortLists, i)
+		}
 	}
 	d3 := small
 	if c.Thorough() {
 		d3 = full
 	}
-	return []opsPlan{{1, full, allLists}, {2, full, allLists}, {3, d3, []int{0, 1, 2}}}
+	return []opsPlan{{1, full, allLists}, {2, full, shortLists}, {3, d3, []int{0, 1, 2}}}
 }
 
 func opsFamily(c *hl.Ctx, restore io.Writer) {
@@ -567,6 +589,9 @@ func opsFamily(c *hl.Ctx, restore io.Writer) {
 	for _, pl := range plans {
 		for _, mode := range opModes {
 			for _, li := range pl.lists {
+				if mode == opModes[0] && len(opLists[li]) > 3 {
+					continue // literal arguments are written out in the harness for up to 3 operands; a longer literal call is the cap == len spread
+				}
 				pos := make([]int, pl.depth)
 				seq := make([]int, pl.depth)
 				for {
